@@ -49,6 +49,7 @@ func (b *Buffer) Close() (err error) {
 		for len(b.consumers) != 0 {
 			verifAt("buffer.close.wait", b, 0)
 			b.cond.Wait()
+			verifAt("buffer.after.woke1", nil, 0)
 		}
 	})
 
@@ -116,6 +117,7 @@ func (b *Buffer) NewConsumer() (Consumer, error) {
 		defer c.Close()
 		verifAt("buffer.consumer.watch.recv", c, 0)
 		<-c.ctx.Done()
+		verifAt("buffer.after.passed1", nil, 0)
 	}()
 
 	b.consumers[c] = b.offset // the consumer's initial offset becomes the start of the buffer
@@ -409,6 +411,7 @@ func (b *Buffer) getAsync(ctx context.Context, c *consumer, offset int, cancels 
 			result.Error = err
 		}
 		out <- result
+		verifAt("buffer.after.passed2", nil, 0)
 	}()
 
 	// return the channel so the async case can be resolved in the consumer logic
